@@ -304,5 +304,20 @@ RULE_ADDENDA = {
     "C15": "a Splice owning a !Send / !Sync replacement iterator must never be Send / Sync; AnyValueCloneable of the owning handles (Element, Pop, Remove, SwapRemove) <=> Cloneable",
     "C16": "class shared-path: each of the 20 mutating methods of AnyVec through &AnyVec and each of the 20 of AnyVecTyped through the shared typed view, while an ElementRef is alive",
 }
+_SCALE = ("scale workloads: ~70 KiB vectors of 1/3/8/12/24/160-byte and zero-sized elements and one 65600-byte element type under the same oracles, "
+          "with operations aimed at page-multiple tails, 4K/64K/128K offsets, word-size remainders, bulk clone/clear/drop")
+_LARGE = ("large capacity requests: ~300 sizes per element type around every page multiple up to 160 KiB and every power of two up to 4 MiB "
+          "(capacity promises, exact shrink results, alignment, allocator layout/guard/leak events)")
+for _p in ("C01", "C02", "C03", "C05", "C08", "C12", "C13", "C14", "C18"):
+    RULE_ADDENDA[_p] = (RULE_ADDENDA.get(_p, "") + "; " if _p in RULE_ADDENDA else "") + _SCALE
+for _p in ("C10", "C05", "C12", "C18"):
+    RULE_ADDENDA[_p] = (RULE_ADDENDA.get(_p, "") + "; " if _p in RULE_ADDENDA else "") + _LARGE
+RULE_ADDENDA["C14"] += "; search finishers (find/rfind/position/rposition/any/all/for_each/max_by_key/min_by_key); lengths 255..70001 and zero-sized lengths 2^16+3, 2^32+5"
+RULE_ADDENDA["C02"] += "; search finishers; far-end / long-range drains and splices at lengths up to 70001 and zero-sized 2^32+5"
+RULE_ADDENDA["C06"] = "fault sweep of bulk operations (clear, drop, clone, drains, splices) at lengths 9 and 17 (33 thorough); lying iterators whose len() answers change between calls and constant lies up to +-7"
+RULE_ADDENDA["C07"] = "follow-ups include a second leaked handle and appending through splice(len..)"
+RULE_ADDENDA["C05"] += "; growth of the vector between two steps of a live typed drain/splice handle (native, ASan, valgrind)"
+RULE_ADDENDA["C08"] = RULE_ADDENDA.get("C08", "") 
+RULE_ADDENDA["C17"] = "a release with another layout than the allocation (alloc-layout) counts as a symptom"
 for _p, _t in RULE_ADDENDA.items():
     CHECKS[_p]["rule"] += "; " + _t
